@@ -6,5 +6,9 @@ VH_CONFIG("per_top_shapes", [](vh::Case& c) { c13::shapes_case<Periodic>(c, fals
 VH_CONFIG("per_vert_shapes", [](vh::Case& c) { c13::shapes_case<Periodic>(c, true); });
 VH_CONFIG("per_top_4d", [](vh::Case& c) { c13::dim4_case<Periodic>(c, false); });
 VH_CONFIG("per_vert_4d", [](vh::Case& c) { c13::dim4_case<Periodic>(c, true); });
+VH_CONFIG("per_5d", [](vh::Case& c) { c13::dim5_case<Periodic>(c); });
+VH_CONFIG("per_long", [](vh::Case& c) { c13::long_case<Periodic>(c); });
 VH_CONFIG("per_constant", [](vh::Case& c) { c13::betti_case<Periodic>(c); });
+VH_CONFIG("per_file", [](vh::Case& c) { c13::file_case<Periodic>(c, 0); });        // finite values only
+VH_CONFIG("per_file_inf", [](vh::Case& c) { c13::file_case<Periodic>(c, 2); });    // at least one `inf` in every file
 VH_MAIN()
